@@ -68,6 +68,10 @@ type EndpointShards struct {
 	// Due to the larger time, it is still possible that connection errors will occur while
 	// CDS is updated.
 	ServiceAccounts sets.String
+
+	// unlinked is set (under the lock) once this object has been removed from the EndpointIndex.
+	// A writer that finds it set must not write but look the service up again.
+	unlinked bool
 }
 
 // Keys gives a sorted list of keys for EndpointShards.Shards.
@@ -270,6 +274,7 @@ func (e *EndpointIndex) deleteServiceInner(shard ShardKey, serviceName, namespac
 	if !preserveKeys {
 		if len(epShards.Shards) == 0 {
 			delete(e.shardsBySvc[serviceName], namespace)
+			epShards.unlinked = true
 		}
 		if len(e.shardsBySvc[serviceName]) == 0 {
 			delete(e.shardsBySvc, serviceName)
@@ -316,7 +321,20 @@ func (e *EndpointIndex) UpdateServiceEndpoints(
 
 	pushType := IncrementalPush
 	// Find endpoint shard for this service, if it is available - otherwise create a new one.
-	ep, created := e.GetOrCreateEndpointShard(hostname, namespace)
+	var ep *EndpointShards
+	created := false
+	for {
+		var c bool
+		ep, c = e.GetOrCreateEndpointShard(hostname, namespace)
+		created = created || c
+		ep.Lock()
+		if !ep.unlinked {
+			break
+		}
+		// lost the race against a concurrent delete that unlinked ep: look up (or create) again.
+		ep.Unlock()
+	}
+	defer ep.Unlock()
 	// If we create a new endpoint shard, that means we have not seen the service earlier. We should do a full push.
 	if created {
 		if logPushType {
@@ -327,8 +345,6 @@ func (e *EndpointIndex) UpdateServiceEndpoints(
 		pushType = FullPush
 	}
 
-	ep.Lock()
-	defer ep.Unlock()
 	oldIstioEndpoints := ep.Shards[shard]
 	newIstioEndpoints, needPush := endpointUpdateRequiresPush(oldIstioEndpoints, istioEndpoints)
 
